@@ -72,7 +72,10 @@ func c10HistParse(h string) (uint64, map[string]bool) {
 func c10LiveApplied(c *configapi.Configuration) []string {
 	var out []string
 	for path, pv := range c.Status.Applied.Values {
-		if pv.Deleted {
+		// a value whose index lies beyond the applied index belongs to an apply whose record write did not happen (the
+		// store writes values and record in two steps: a crash or a version conflict in between – the recorded C15
+		// finding); the configuration does not count it as applied yet and the apply will be repeated
+		if pv.Deleted || pv.Index > c.Status.Applied.Index {
 			continue
 		}
 		if g, err := valuesv2.NativeTypeToGnmiTypedValue(&pv.Value); err == nil {
@@ -336,9 +339,13 @@ func c04Extra(thorough bool) []*Scenario {
 		// non-initial start state: committed offline, applied when the device shows up, re-sent after a restart
 		{Name: "S5q leaf, delete of its container, leaf again - all committed while T1 is offline (before the exploration starts); the device connects and later restarts empty", Cfg: one,
 			Prefix: []func(w *World) *Call{
-				func(w *World) *Call { return w.GoSet(bgCtx(), setReq("sub/leafC=c", upd("T1", "/cont/sub/leafC", "c")).Set) },
+				func(w *World) *Call {
+					return w.GoSet(bgCtx(), setReq("sub/leafC=c", upd("T1", "/cont/sub/leafC", "c")).Set)
+				},
 				func(w *World) *Call { return w.GoSet(bgCtx(), setReq("del /cont/sub", del("T1", "/cont/sub")).Set) },
-				func(w *World) *Call { return w.GoSet(bgCtx(), setReq("sub/leafC=5", upd("T1", "/cont/sub/leafC", "5")).Set) }},
+				func(w *World) *Call {
+					return w.GoSet(bgCtx(), setReq("sub/leafC=5", upd("T1", "/cont/sub/leafC", "5")).Set)
+				}},
 			Faults: []FaultSpec{faultConnUp("T1"), faultDeviceRestart("T1")}, FaultBudget: 2, MapOrderDeviations: true},
 		{Name: "S6d leaves applied on T1; a delete of their container that the device refuses, then a Set; connection lost and re-established anywhere", Cfg: one,
 			Init: func(w *World) {
